@@ -520,7 +520,26 @@ mod ot {
         let mut out2 = sl_oblivious::rvole::RVOLEOutput::default();
         let _ = sl_oblivious::rvole::RVOLESender::process(&sid, &rseed, &a, &round1, &mut out2, &mut r).unwrap();
         let out2_bytes = bytemuck::bytes_of(&out2).to_vec();
-        for (kind, bytes) in variants(&mut r, &out2_bytes, 30 * scale) {
+        // otherwise valid messages in which one 32-byte scalar field is not a canonical scalar (n, n+1, 2^256-1) or is n-1:
+        // uniform / all-one messages of the base-OT variant stop at the point decoding, these reach the scalar decoding
+        let noncanonical = |valid: &[u8]| -> Vec<(String, Vec<u8>)> {
+            let tail = valid.len() - (512 * 96 + 32 + 64);
+            let n = crate::util::K256_ORDER_BE;
+            let mut n1 = n; n1[31] += 1;
+            let mut nm = n; nm[31] -= 1;
+            let mut v = vec![];
+            for (fname, off) in [("a_tilde[0][0]", tail), ("a_tilde[255][1]", tail + 255 * 96 + 32), ("a_tilde[511][2]", tail + 511 * 96 + 64), ("eta", tail + 512 * 96)] {
+                for (vname, val) in [("n", n), ("n+1", n1), ("2^256-1", [0xffu8; 32]), ("n-1", nm)] {
+                    let mut m = valid.to_vec();
+                    m[off..off + 32].copy_from_slice(&val);
+                    v.push((format!("scalar-field-{fname}={vname}"), m));
+                }
+            }
+            v
+        };
+        let mut rv_inputs = variants(&mut r, &out2_bytes, 30 * scale);
+        rv_inputs.extend(noncanonical(&out2_bytes));
+        for (kind, bytes) in rv_inputs {
             rec.case("rvole.receiver.process", &kind, &bytes, || match pod::<sl_oblivious::rvole::RVOLEOutput>(&bytes) {
                 Some(m) => rvr.process(&m).is_ok(),
                 None => false,
@@ -546,7 +565,9 @@ mod ot {
             let mut m2 = v::RVOLEMsg2::default();
             let _ = v::RVOLESender::process(&sid, &a, &m1, &mut m2, &mut r).unwrap();
             let m2_bytes = bytemuck::bytes_of(&m2).to_vec();
-            for (kind, bytes) in variants(&mut r, &m2_bytes, 3 * scale) {
+            let mut ot_inputs = variants(&mut r, &m2_bytes, 3 * scale);
+            ot_inputs.extend(noncanonical(&m2_bytes));
+            for (kind, bytes) in ot_inputs {
                 let mut rr = rng(seed, "c11-rvole-ot-r");
                 rec.case("rvole_ot.receiver.process", &kind, &bytes, || match pod::<v::RVOLEMsg2>(&bytes) {
                     Some(m) => {
@@ -611,6 +632,36 @@ mod relay {
                 let _c = relay.connect();
                 true
             });
+        }
+        // timed histories on a virtual clock (the generators of C15/C16: templates around the expiry boundaries, random
+        // histories, bursts): the expiry bookkeeping runs while the relay's lock is held, so a panic there poisons it
+        {
+            use crate::c15::{burst_history, c16_template, hist_line, random_history, Obs, Profile, Runner};
+            let mut runner = Runner::new();
+            let mut hr = rng(seed, "c11-relay-hist");
+            let mut hm = rng(seed, "c11-relay-hist-malformed");
+            let prof = Profile { nconn: 3, nids: 3, maxlen: 30, ttl_max: 3, boundary_ttl_pct: 5, big_advance: true,
+                messages_after_each: false, malformed_pct: 10 };
+            let mut hists = vec![];
+            for k in 0..(40 * scale) {
+                let (prefix, t0, name) = c16_template(&mut hr, k as u32);
+                hists.push(random_history(&mut hr, &mut hm, &prof, name, prefix, t0));
+            }
+            for k in 0..(20 * scale) {
+                let _ = k;
+                hists.push(random_history(&mut hr, &mut hm, &prof, "random", vec![], 0));
+            }
+            hists.push(burst_history(1, 70));
+            for h in &hists {
+                let obs = runner.run(h.nconn, &h.ops);
+                let line = hist_line(h, &obs);
+                rec.case("relay.timed-history", &h.gen, line.as_bytes(), || {
+                    if obs.last().map(|o| o.first() == Some(&Obs::Panic)).unwrap_or(false) {
+                        panic!("the relay panicked during this history");
+                    }
+                    true
+                });
+            }
         }
         // multi-step histories: a waiter that disconnects before the publication, a waiter that never drains
         // (more deliveries than its channel holds), a waiter dropped between two publications
